@@ -23,7 +23,6 @@ import (
 	"encoding/json"
 	"fmt"
 	"sort"
-	"strings"
 	"sync"
 	"testing"
 	"time"
@@ -136,12 +135,14 @@ type c31Worker struct {
 	premise            int64
 	looseLost, dupLost int64
 	pushed, used, emit []bool
+	npush, usedAt      []int // pushes of a position so far / at the time a sample used it
 }
 
 func c31NewWorker(tb testing.TB) *c31Worker {
 	return &c31Worker{
 		states: map[uint64]struct{}{}, classes: map[int]struct{}{}, outcomes: map[int]struct{}{}, tb: tb,
 		pushed: make([]bool, 64), used: make([]bool, 64), emit: make([]bool, 64),
+		npush: make([]int, 64), usedAt: make([]int, 64),
 	}
 }
 
@@ -269,29 +270,19 @@ func c31Run(c *vkit.Check, w *c31Worker, cs *c31Case, trace bool) {
 	)
 	for i := range pushed {
 		pushed[i], used[i] = false, false
+		w.npush[i], w.usedAt[i] = 0, 0
 	}
 	for i := range emitted {
 		emitted[i] = false
 	}
 	w.kinds[c31KindIndex(cs.Kind)]++
-	flushed := false
-	// violation key: kind of breach x head mode of the depacketizer x phase (sample popped before / after Flush)
+	// violation key = kind of breach (+ a cause where one breach has several mechanisms); the
+	// configuration dimensions are deliberately not part of it
 	fail := func(kind, what string) {
 		failed = true
-		heads, at := "first", "push"
-		if cs.AllHeads {
-			heads = "all"
-		}
-		if flushed {
-			at = "flush"
-		}
-		key := kind + "|heads=" + heads
-		if !strings.HasPrefix(kind, "frame-lost") {
-			key += "|at=" + at
-		}
 		rc := *cs
 		rc.Trace = tr
-		c.Violation(key, what+" — case "+vkit.Short(cs), rc)
+		c.Violation(kind, what+" — case "+vkit.Short(cs), rc)
 	}
 	check := func(s *media.Sample) {
 		nSamples++
@@ -338,13 +329,20 @@ func c31Run(c *vkit.Check, w *c31Worker, cs *c31Case, trace bool) {
 		}
 		for _, p := range ids {
 			if used[p] {
-				fail("packet-reused", fmt.Sprintf("packet %d contributes to two samples (second: %v)", p, ids))
+				// cause=repushed: the packet was pushed again (duplicate) after a sample had used it;
+				// cause=leftover: it was pushed once and still used twice
+				cause := "leftover"
+				if w.npush[p] > w.usedAt[p] {
+					cause = "repushed"
+				}
+				fail("packet-reused|cause="+cause, fmt.Sprintf("packet %d contributes to two samples (second: %v)", p, ids))
 
 				return
 			}
 		}
 		for _, p := range ids {
 			used[p] = true
+			w.usedAt[p] = w.npush[p]
 		}
 		if ids[0] <= lastFirst {
 			fail("out-of-order", fmt.Sprintf("sample %v emitted after a sample starting at packet %d", ids, lastFirst))
@@ -395,6 +393,7 @@ func c31Run(c *vkit.Check, w *c31Worker, cs *c31Case, trace bool) {
 			}
 			sb.Push(pkt)
 			pushed[p] = true
+			w.npush[p]++
 			w.state(sb, cs)
 			if trace {
 				tr = append(tr, fmt.Sprintf("Push pos=%d seq=%d filled=%v active=%v", p, pkt.SequenceNumber, sb.filled, sb.active))
@@ -418,7 +417,6 @@ func c31Run(c *vkit.Check, w *c31Worker, cs *c31Case, trace bool) {
 		sb.maxLateTimestamp = 0
 		sb.Flush()
 		sb.maxLateTimestamp = mlt
-		flushed = true
 		w.state(sb, cs)
 		if trace {
 			tr = append(tr, fmt.Sprintf("Flush filled=%v active=%v", sb.filled, sb.active))
@@ -546,9 +544,10 @@ type c31Config struct {
 type c31Family struct {
 	name    string
 	shapes  [][]int
-	disp    int // displacement bound of the delivery orders
-	loss    bool
-	dup     bool
+	disp    int  // displacement bound of the delivery orders
+	reorder bool // run every order as it is
+	loss    bool // run every order with each single packet removed
+	dup     bool // run every order with each single packet pushed a second time at every later index
 	configs []c31Config
 }
 
@@ -591,29 +590,38 @@ func TestVerifC31(t *testing.T) {
 	}
 
 	wrapSeq, wrapTs := uint32(65534), uint32(1<<32-2)
+	startsWrap := [][2]uint32{{wrapSeq, wrapTs}}
 	starts2 := [][2]uint32{{0, 0}, {wrapSeq, wrapTs}}
-	starts4 := [][2]uint32{{0, 0}, {wrapSeq, wrapTs}, {0, wrapTs}, {wrapSeq, 0}, {65531, 1<<32 - 25}}
-	delays := []int{0, 15, 10000}
+	starts5 := [][2]uint32{{0, 0}, {wrapSeq, wrapTs}, {0, wrapTs}, {wrapSeq, 0}, {65531, 1<<32 - 25}}
+	delays := []int{0, 15, 10000} // ms at 1000 Hz: absent / shorter than two frame intervals / longer than any stream
 	pops := []int{0, 1, 2}
-	both := []bool{true, false}
+	yes, both := []bool{true}, []bool{true, false}
+	ml := func(v ...uint16) []uint16 { return v }
 
 	var fams []c31Family
 	if c.Quick() {
 		fams = []c31Family{
-			{name: "3x1-2 all orders + loss + dup", shapes: c31Shapes(3, 2), disp: 5, loss: true, dup: true,
-				configs: c31Configs(starts2, []uint16{2, 5}, []int{0, 15}, []int{0, 2}, []bool{true}, both)},
+			{name: "3 frames x 1-2 packets, all orders, reorder+loss", shapes: c31Shapes(3, 2), disp: 5, reorder: true, loss: true,
+				configs: c31Configs(starts2, ml(2, 5), []int{0, 15}, []int{0, 2}, yes, both)},
+			{name: "3 frames x 1-2 packets, all orders, dup", shapes: c31Shapes(3, 2), disp: 5, dup: true,
+				configs: c31Configs(startsWrap, ml(2, 5), []int{0}, []int{0, 2}, yes, both)},
+			{name: "2 frames x 1-3 packets, all orders, reorder+loss", shapes: c31Shapes(2, 3), disp: 5, reorder: true, loss: true,
+				configs: c31Configs(starts2, ml(2, 5), []int{0}, []int{0, 2}, yes, both)},
 		}
 	} else {
 		fams = []c31Family{
-			{name: "3x1-2 all orders + loss + dup", shapes: c31Shapes(3, 2), disp: 5, loss: true, dup: true,
-				configs: c31Configs(starts2, []uint16{1, 2, 3, 5}, delays, pops, both, both)},
-			{name: "2x1-3 all orders + loss + dup", shapes: c31Shapes(2, 3), disp: 5, loss: true, dup: true,
-				configs: c31Configs(starts2, []uint16{1, 2, 3, 5}, delays, pops, both, both)},
-			{name: "3x1-3 displacement<=2 + loss", shapes: c31Shapes(3, 3), disp: 2, loss: true,
-				configs: c31Configs(starts2, []uint16{2, 5}, delays, pops, []bool{true}, both)},
+			{name: "3 frames x 1-2 packets, all orders, reorder+loss+dup", shapes: c31Shapes(3, 2), disp: 5, reorder: true, loss: true, dup: true,
+				configs: c31Configs(starts2, ml(1, 2, 3, 5), delays, pops, both, both)},
+			{name: "2 frames x 1-3 packets, all orders, reorder+loss+dup", shapes: c31Shapes(2, 3), disp: 5, reorder: true, loss: true, dup: true,
+				configs: c31Configs(starts5, ml(1, 2, 3, 5), delays, pops, both, both)},
+			{name: "3 frames x 1-3 packets, displacement<=2, reorder+loss", shapes: c31Shapes(3, 3), disp: 2, reorder: true, loss: true,
+				configs: c31Configs(starts2, ml(2, 5), delays, pops, yes, both)},
+			{name: "4 frames x 1-2 packets, displacement<=3, reorder+loss+dup", shapes: c31Shapes(4, 2), disp: 3, reorder: true, loss: true, dup: true,
+				configs: c31Configs(startsWrap, ml(2, 5), []int{0, 15}, []int{0, 2}, yes, both)},
+			{name: "4 frames x 1-3 packets, displacement<=2, reorder", shapes: c31Shapes(4, 3), disp: 2, reorder: true,
+				configs: c31Configs(startsWrap, ml(2, 5), []int{0}, []int{0, 2}, yes, both)},
 		}
 	}
-	_ = starts4
 
 	type item struct {
 		fam   int
@@ -685,7 +693,9 @@ func TestVerifC31(t *testing.T) {
 			c31Run(c, w, &cs, false)
 		}
 		c31Orders(st.n, fam.disp, func(order []int) {
-			runOne("reorder", order)
+			if fam.reorder {
+				runOne("reorder", order)
+			}
 			if fam.loss {
 				for drop := 0; drop < st.n; drop++ {
 					buf = buf[:0]
